@@ -214,7 +214,7 @@ def check_shipped(case):
 
 
 SUBCHECKS = [
-    Sub("generated", check, strategy=lambda tier: case_strategy(tier), quick=500, thorough=8000,
+    Sub("generated", check, strategy=lambda tier: case_strategy(tier), quick=1000, thorough=40000,
         min_share={"relation:start-smaller": 0.2, "relation:equal": 0.1, "relation:start-larger": 0.1,
                    "deformed": 0.15, "collinear-neighbours": 0.04}),
     Sub("shipped", check_shipped, enumerate=shipped_cases, note="shipped molecule pairs in both directions"),
